@@ -57,7 +57,7 @@ impl Prop for C17 {
         300
     }
     fn cases(&self, tier: Tier) -> u32 {
-        tier.pick(60_000, 1_500_000)
+        tier.pick(800_000, 12_000_000)
     }
     fn watchdog_ms(&self) -> u64 {
         10_000
